@@ -88,6 +88,114 @@ Lemma len_add_warn : forall s, length (txns (add_warn s)) = length (txns s). Pro
 Lemma len_clear_log : forall s, length (txns (clear_log s)) = length (txns s). Proof. reflexivity. Qed.
 Global Hint Rewrite get_set_root get_set_nested get_set_ctx get_set_seq get_set_closed get_set_db get_add_out get_add_warn get_clear_log active_set_root active_set_nested active_set_ctx active_set_seq active_set_closed active_set_db active_add_out active_add_warn active_clear_log is_root_set_root is_root_set_nested is_root_set_ctx is_root_set_seq is_root_set_closed is_root_set_db is_root_add_out is_root_add_warn is_root_clear_log sp_set_root sp_set_nested sp_set_ctx sp_set_seq sp_set_closed sp_set_db sp_add_out sp_add_warn sp_clear_log prev_set_root prev_set_nested prev_set_ctx prev_set_seq prev_set_closed prev_set_db prev_add_out prev_add_warn prev_clear_log subject_set_root subject_set_nested subject_set_ctx subject_set_seq subject_set_closed subject_set_db subject_add_out subject_add_warn subject_clear_log outer_set_root outer_set_nested outer_set_ctx outer_set_seq outer_set_closed outer_set_db outer_add_out outer_add_warn outer_clear_log len_set_root len_set_nested len_set_ctx len_set_seq len_set_closed len_set_db len_add_out len_add_warn len_clear_log : st.
 
+(* ---- generated: projections of updated states ---- *)
+Lemma c_root_set_root : forall o s, c_root (set_root o s) = o. Proof. reflexivity. Qed.
+Lemma c_root_set_nested : forall o s, c_root (set_nested o s) = c_root s. Proof. reflexivity. Qed.
+Lemma c_root_set_ctx : forall o s, c_root (set_ctx o s) = c_root s. Proof. reflexivity. Qed.
+Lemma c_root_set_seq : forall n s, c_root (set_seq n s) = c_root s. Proof. reflexivity. Qed.
+Lemma c_root_set_closed : forall b s, c_root (set_closed b s) = c_root s. Proof. reflexivity. Qed.
+Lemma c_root_set_db : forall d s, c_root (set_db d s) = c_root s. Proof. reflexivity. Qed.
+Lemma c_root_add_out : forall e s, c_root (add_out e s) = c_root s. Proof. reflexivity. Qed.
+Lemma c_root_add_warn : forall s, c_root (add_warn s) = c_root s. Proof. reflexivity. Qed.
+Lemma c_root_clear_log : forall s, c_root (clear_log s) = c_root s. Proof. reflexivity. Qed.
+Lemma c_nested_set_root : forall o s, c_nested (set_root o s) = c_nested s. Proof. reflexivity. Qed.
+Lemma c_nested_set_nested : forall o s, c_nested (set_nested o s) = o. Proof. reflexivity. Qed.
+Lemma c_nested_set_ctx : forall o s, c_nested (set_ctx o s) = c_nested s. Proof. reflexivity. Qed.
+Lemma c_nested_set_seq : forall n s, c_nested (set_seq n s) = c_nested s. Proof. reflexivity. Qed.
+Lemma c_nested_set_closed : forall b s, c_nested (set_closed b s) = c_nested s. Proof. reflexivity. Qed.
+Lemma c_nested_set_db : forall d s, c_nested (set_db d s) = c_nested s. Proof. reflexivity. Qed.
+Lemma c_nested_add_out : forall e s, c_nested (add_out e s) = c_nested s. Proof. reflexivity. Qed.
+Lemma c_nested_add_warn : forall s, c_nested (add_warn s) = c_nested s. Proof. reflexivity. Qed.
+Lemma c_nested_clear_log : forall s, c_nested (clear_log s) = c_nested s. Proof. reflexivity. Qed.
+Lemma c_ctx_set_root : forall o s, c_ctx (set_root o s) = c_ctx s. Proof. reflexivity. Qed.
+Lemma c_ctx_set_nested : forall o s, c_ctx (set_nested o s) = c_ctx s. Proof. reflexivity. Qed.
+Lemma c_ctx_set_ctx : forall o s, c_ctx (set_ctx o s) = o. Proof. reflexivity. Qed.
+Lemma c_ctx_set_seq : forall n s, c_ctx (set_seq n s) = c_ctx s. Proof. reflexivity. Qed.
+Lemma c_ctx_set_closed : forall b s, c_ctx (set_closed b s) = c_ctx s. Proof. reflexivity. Qed.
+Lemma c_ctx_set_db : forall d s, c_ctx (set_db d s) = c_ctx s. Proof. reflexivity. Qed.
+Lemma c_ctx_add_out : forall e s, c_ctx (add_out e s) = c_ctx s. Proof. reflexivity. Qed.
+Lemma c_ctx_add_warn : forall s, c_ctx (add_warn s) = c_ctx s. Proof. reflexivity. Qed.
+Lemma c_ctx_clear_log : forall s, c_ctx (clear_log s) = c_ctx s. Proof. reflexivity. Qed.
+Lemma c_seq_set_root : forall o s, c_seq (set_root o s) = c_seq s. Proof. reflexivity. Qed.
+Lemma c_seq_set_nested : forall o s, c_seq (set_nested o s) = c_seq s. Proof. reflexivity. Qed.
+Lemma c_seq_set_ctx : forall o s, c_seq (set_ctx o s) = c_seq s. Proof. reflexivity. Qed.
+Lemma c_seq_set_seq : forall n s, c_seq (set_seq n s) = n. Proof. reflexivity. Qed.
+Lemma c_seq_set_closed : forall b s, c_seq (set_closed b s) = c_seq s. Proof. reflexivity. Qed.
+Lemma c_seq_set_db : forall d s, c_seq (set_db d s) = c_seq s. Proof. reflexivity. Qed.
+Lemma c_seq_add_out : forall e s, c_seq (add_out e s) = c_seq s. Proof. reflexivity. Qed.
+Lemma c_seq_add_warn : forall s, c_seq (add_warn s) = c_seq s. Proof. reflexivity. Qed.
+Lemma c_seq_clear_log : forall s, c_seq (clear_log s) = c_seq s. Proof. reflexivity. Qed.
+Lemma c_closed_set_root : forall o s, c_closed (set_root o s) = c_closed s. Proof. reflexivity. Qed.
+Lemma c_closed_set_nested : forall o s, c_closed (set_nested o s) = c_closed s. Proof. reflexivity. Qed.
+Lemma c_closed_set_ctx : forall o s, c_closed (set_ctx o s) = c_closed s. Proof. reflexivity. Qed.
+Lemma c_closed_set_seq : forall n s, c_closed (set_seq n s) = c_closed s. Proof. reflexivity. Qed.
+Lemma c_closed_set_closed : forall b s, c_closed (set_closed b s) = b. Proof. reflexivity. Qed.
+Lemma c_closed_set_db : forall d s, c_closed (set_db d s) = c_closed s. Proof. reflexivity. Qed.
+Lemma c_closed_add_out : forall e s, c_closed (add_out e s) = c_closed s. Proof. reflexivity. Qed.
+Lemma c_closed_add_warn : forall s, c_closed (add_warn s) = c_closed s. Proof. reflexivity. Qed.
+Lemma c_closed_clear_log : forall s, c_closed (clear_log s) = c_closed s. Proof. reflexivity. Qed.
+Lemma s_db_set_root : forall o s, s_db (set_root o s) = s_db s. Proof. reflexivity. Qed.
+Lemma s_db_set_nested : forall o s, s_db (set_nested o s) = s_db s. Proof. reflexivity. Qed.
+Lemma s_db_set_ctx : forall o s, s_db (set_ctx o s) = s_db s. Proof. reflexivity. Qed.
+Lemma s_db_set_seq : forall n s, s_db (set_seq n s) = s_db s. Proof. reflexivity. Qed.
+Lemma s_db_set_closed : forall b s, s_db (set_closed b s) = s_db s. Proof. reflexivity. Qed.
+Lemma s_db_set_db : forall d s, s_db (set_db d s) = d. Proof. reflexivity. Qed.
+Lemma s_db_add_out : forall e s, s_db (add_out e s) = s_db s. Proof. reflexivity. Qed.
+Lemma s_db_add_warn : forall s, s_db (add_warn s) = s_db s. Proof. reflexivity. Qed.
+Lemma s_db_clear_log : forall s, s_db (clear_log s) = s_db s. Proof. reflexivity. Qed.
+Lemma s_out_set_root : forall o s, s_out (set_root o s) = s_out s. Proof. reflexivity. Qed.
+Lemma s_out_set_nested : forall o s, s_out (set_nested o s) = s_out s. Proof. reflexivity. Qed.
+Lemma s_out_set_ctx : forall o s, s_out (set_ctx o s) = s_out s. Proof. reflexivity. Qed.
+Lemma s_out_set_seq : forall n s, s_out (set_seq n s) = s_out s. Proof. reflexivity. Qed.
+Lemma s_out_set_closed : forall b s, s_out (set_closed b s) = s_out s. Proof. reflexivity. Qed.
+Lemma s_out_set_db : forall d s, s_out (set_db d s) = s_out s. Proof. reflexivity. Qed.
+Lemma s_out_add_out : forall e s, s_out (add_out e s) = s_out s ++ [e]. Proof. reflexivity. Qed.
+Lemma s_out_add_warn : forall s, s_out (add_warn s) = s_out s. Proof. reflexivity. Qed.
+Lemma s_out_clear_log : forall s, s_out (clear_log s) = []. Proof. reflexivity. Qed.
+Lemma s_warns_set_root : forall o s, s_warns (set_root o s) = s_warns s. Proof. reflexivity. Qed.
+Lemma s_warns_set_nested : forall o s, s_warns (set_nested o s) = s_warns s. Proof. reflexivity. Qed.
+Lemma s_warns_set_ctx : forall o s, s_warns (set_ctx o s) = s_warns s. Proof. reflexivity. Qed.
+Lemma s_warns_set_seq : forall n s, s_warns (set_seq n s) = s_warns s. Proof. reflexivity. Qed.
+Lemma s_warns_set_closed : forall b s, s_warns (set_closed b s) = s_warns s. Proof. reflexivity. Qed.
+Lemma s_warns_set_db : forall d s, s_warns (set_db d s) = s_warns s. Proof. reflexivity. Qed.
+Lemma s_warns_add_out : forall e s, s_warns (add_out e s) = s_warns s. Proof. reflexivity. Qed.
+Lemma s_warns_add_warn : forall s, s_warns (add_warn s) = S (s_warns s). Proof. reflexivity. Qed.
+Lemma s_warns_clear_log : forall s, s_warns (clear_log s) = 0. Proof. reflexivity. Qed.
+Lemma txns_set_root : forall o s, txns (set_root o s) = txns s. Proof. reflexivity. Qed.
+Lemma txns_set_nested : forall o s, txns (set_nested o s) = txns s. Proof. reflexivity. Qed.
+Lemma txns_set_ctx : forall o s, txns (set_ctx o s) = txns s. Proof. reflexivity. Qed.
+Lemma txns_set_seq : forall n s, txns (set_seq n s) = txns s. Proof. reflexivity. Qed.
+Lemma txns_set_closed : forall b s, txns (set_closed b s) = txns s. Proof. reflexivity. Qed.
+Lemma txns_set_db : forall d s, txns (set_db d s) = txns s. Proof. reflexivity. Qed.
+Lemma txns_add_out : forall e s, txns (add_out e s) = txns s. Proof. reflexivity. Qed.
+Lemma txns_add_warn : forall s, txns (add_warn s) = txns s. Proof. reflexivity. Qed.
+Lemma txns_clear_log : forall s, txns (clear_log s) = txns s. Proof. reflexivity. Qed.
+Lemma c_root_push_txn : forall t s, c_root (push_txn t s) = c_root s. Proof. reflexivity. Qed.
+Lemma c_root_upd_txn : forall k f s, c_root (upd_txn k f s) = c_root s. Proof. reflexivity. Qed.
+Lemma c_root_set_active : forall k b s, c_root (set_active k b s) = c_root s. Proof. reflexivity. Qed.
+Lemma c_nested_push_txn : forall t s, c_nested (push_txn t s) = c_nested s. Proof. reflexivity. Qed.
+Lemma c_nested_upd_txn : forall k f s, c_nested (upd_txn k f s) = c_nested s. Proof. reflexivity. Qed.
+Lemma c_nested_set_active : forall k b s, c_nested (set_active k b s) = c_nested s. Proof. reflexivity. Qed.
+Lemma c_ctx_push_txn : forall t s, c_ctx (push_txn t s) = c_ctx s. Proof. reflexivity. Qed.
+Lemma c_ctx_upd_txn : forall k f s, c_ctx (upd_txn k f s) = c_ctx s. Proof. reflexivity. Qed.
+Lemma c_ctx_set_active : forall k b s, c_ctx (set_active k b s) = c_ctx s. Proof. reflexivity. Qed.
+Lemma c_seq_push_txn : forall t s, c_seq (push_txn t s) = c_seq s. Proof. reflexivity. Qed.
+Lemma c_seq_upd_txn : forall k f s, c_seq (upd_txn k f s) = c_seq s. Proof. reflexivity. Qed.
+Lemma c_seq_set_active : forall k b s, c_seq (set_active k b s) = c_seq s. Proof. reflexivity. Qed.
+Lemma c_closed_push_txn : forall t s, c_closed (push_txn t s) = c_closed s. Proof. reflexivity. Qed.
+Lemma c_closed_upd_txn : forall k f s, c_closed (upd_txn k f s) = c_closed s. Proof. reflexivity. Qed.
+Lemma c_closed_set_active : forall k b s, c_closed (set_active k b s) = c_closed s. Proof. reflexivity. Qed.
+Lemma s_db_push_txn : forall t s, s_db (push_txn t s) = s_db s. Proof. reflexivity. Qed.
+Lemma s_db_upd_txn : forall k f s, s_db (upd_txn k f s) = s_db s. Proof. reflexivity. Qed.
+Lemma s_db_set_active : forall k b s, s_db (set_active k b s) = s_db s. Proof. reflexivity. Qed.
+Lemma s_out_push_txn : forall t s, s_out (push_txn t s) = s_out s. Proof. reflexivity. Qed.
+Lemma s_out_upd_txn : forall k f s, s_out (upd_txn k f s) = s_out s. Proof. reflexivity. Qed.
+Lemma s_out_set_active : forall k b s, s_out (set_active k b s) = s_out s. Proof. reflexivity. Qed.
+Lemma s_warns_push_txn : forall t s, s_warns (push_txn t s) = s_warns s. Proof. reflexivity. Qed.
+Lemma s_warns_upd_txn : forall k f s, s_warns (upd_txn k f s) = s_warns s. Proof. reflexivity. Qed.
+Lemma s_warns_set_active : forall k b s, s_warns (set_active k b s) = s_warns s. Proof. reflexivity. Qed.
+Global Hint Rewrite c_root_set_root c_root_set_nested c_root_set_ctx c_root_set_seq c_root_set_closed c_root_set_db c_root_add_out c_root_add_warn c_root_clear_log c_nested_set_root c_nested_set_nested c_nested_set_ctx c_nested_set_seq c_nested_set_closed c_nested_set_db c_nested_add_out c_nested_add_warn c_nested_clear_log c_ctx_set_root c_ctx_set_nested c_ctx_set_ctx c_ctx_set_seq c_ctx_set_closed c_ctx_set_db c_ctx_add_out c_ctx_add_warn c_ctx_clear_log c_seq_set_root c_seq_set_nested c_seq_set_ctx c_seq_set_seq c_seq_set_closed c_seq_set_db c_seq_add_out c_seq_add_warn c_seq_clear_log c_closed_set_root c_closed_set_nested c_closed_set_ctx c_closed_set_seq c_closed_set_closed c_closed_set_db c_closed_add_out c_closed_add_warn c_closed_clear_log s_db_set_root s_db_set_nested s_db_set_ctx s_db_set_seq s_db_set_closed s_db_set_db s_db_add_out s_db_add_warn s_db_clear_log s_out_set_root s_out_set_nested s_out_set_ctx s_out_set_seq s_out_set_closed s_out_set_db s_out_add_out s_out_add_warn s_out_clear_log s_warns_set_root s_warns_set_nested s_warns_set_ctx s_warns_set_seq s_warns_set_closed s_warns_set_db s_warns_add_out s_warns_add_warn s_warns_clear_log txns_set_root txns_set_nested txns_set_ctx txns_set_seq txns_set_closed txns_set_db txns_add_out txns_add_warn txns_clear_log c_root_push_txn c_root_upd_txn c_root_set_active c_nested_push_txn c_nested_upd_txn c_nested_set_active c_ctx_push_txn c_ctx_upd_txn c_ctx_set_active c_seq_push_txn c_seq_upd_txn c_seq_set_active c_closed_push_txn c_closed_upd_txn c_closed_set_active s_db_push_txn s_db_upd_txn s_db_set_active s_out_push_txn s_out_upd_txn s_out_set_active s_warns_push_txn s_warns_upd_txn s_warns_set_active : st.
+
 (* ---- updates of the object table ---- *)
 Lemma upd_length : forall A (f : A -> A) l k, length (upd k f l) = length l.
 Proof. induction l; destruct k; cbn; auto. Qed.
